@@ -514,7 +514,7 @@ def c05(tier, seed):
     import configs
     import envelope
     from scenarios import cat, mr, caitems, cacat, scenario
-    n = 14 if tier == "quick" else 120
+    n = 14 if tier == "quick" else 60
     y = dict(yvals=(0, 1, 3), ymeasures=("mean", "sum", "stddev", "median"), valid_counts=True)
     base = [
         scenario("cat_x_cat", [cat("A", 4, miss=[2], vals=[1, 9, 3, 2]), cat("B", 4, miss=[4], vals=[2, None, 1, 5])],
@@ -545,9 +545,9 @@ def c05(tier, seed):
         configs.assign_label_ranks(s)
         scns.append(s)
     jobs = _value_jobs("C05", "c07", scns, tier, seed,
-                       bfs_budget=260 if tier == "quick" else 12000,
-                       sim_budget=450 if tier == "quick" else 8000,
-                       power=((1, 4, 9), 45, 7, 10 if tier == "quick" else 120))
+                       bfs_budget=260 if tier == "quick" else 5000,
+                       sim_budget=450 if tier == "quick" else 3000,
+                       power=((1, 4, 9), 45, 7, 10 if tier == "quick" else 50))
     if tier == "quick":
         # quick tier: the exhaustive part covers the empty survey only (one state per
         # configuration); the bags come from simulation
@@ -655,8 +655,8 @@ def c10(tier, seed):
                         + configs.order_configs(rd, cd, n // 2, seed * 73 + i, with_prune=True))
         scns.append(s)
     jobs = _value_jobs("C10", "c07", scns, tier, seed,
-                       bfs_budget=220 if tier == "quick" else 12000,
-                       sim_budget=450 if tier == "quick" else 8000,
+                       bfs_budget=220 if tier == "quick" else 5000,
+                       sim_budget=450 if tier == "quick" else 3000,
                        bfs_empty_only=(tier == "quick"))
     for j in jobs:
         j["replayer"] = ("mirror", "replay")
